@@ -194,6 +194,9 @@ def first_split(d, sep):
             ok = ok and c[2][1] == ("lit", 2) and c[2][2] in pats
         elif name == "split_once" and len(c[2]) == 2:
             ok = ok and c[2][1] in pats
+        elif name == "find" and len(c[2]) == 2 and c[2][1] in pats:
+            # `match t.find(sep) { Some(i) => (&t[..i], &t[i + 1..]), None => (t, "") }`: the first occurrence, spelled with an index
+            ok = ok and True
         else:
             ok = False
     return ok, " / ".join(sorted(set(texts)))
@@ -346,6 +349,11 @@ def start_line_exact(chk, prog, rid, cfg=None):
                         bad = [c[1] for c in core.desc_calls(d) if core.re.search(
                             r"::(find|rfind|split_at|replace|replacen|strip_prefix|strip_suffix|get|get_unchecked|rsplit|rsplitn|rsplit_once|split_off|truncate|drain|pop|remove|percent_decode|to_lowercase|to_ascii_lowercase)$|"
                             r"ops::Index<[^>]*Range[^>]*>>?::index$|str::traits::<impl std::ops::Index<I> for str>::index$", c[1])]
+                        # (the split at the first `?` itself may be spelled `find('?')` + `[..i]`: every search is for that separator)
+                        finds_ = [c for c in core.desc_calls(d) if c[1].endswith("::find")]
+                        if bad and finds_ and all(len(c[2]) == 2 and c[2][1] in (("lit", 63), ("lit", "?")) for c in finds_) and \
+                                all(core.re.search(r"::find$|Index<[^>]*>>?::index$|for str>::index$", x) for x in bad):
+                            bad = []
                     chk.ob(rid, p, f"request line: the {f} token is taken exactly (no trimming / whitespace splitting)", not bad,
                            f"the {f} passes through {core.short(bad[0]) if bad else ''}: the request line is not taken as it was sent (a bare LF, a trailing blank or an extra token is accepted, or part of the target is cut away)",
                            where=b.where(bi), cfg=cfg)
